@@ -92,9 +92,13 @@ package render
 //@   serves C05, C07
 //@   requires pg != nil
 //@   modifies pg.sink, pg.extra, pg.cacheMap, pg.menu.menu, pg.menu.sink, pg.menu.canNext, pg.menu.canPrevious, pg.sizer.crsrs
+//@   modifies pg.sizer.sink, pg.sizer.memberSizes, pg.sizer.totalMemberSize
 //@   ensures @fresh pg.sink == nil && pg.extra == "" && pg.cacheMap != nil && fresh(pg.cacheMap) && all[string](k, !in(k, pg.cacheMap))
 //@   ensures @menu pg.menu != nil ==> len(pg.menu.menu) == 0 && !pg.menu.sink
 //@   ensures @cursors pg.sizer != nil ==> len(pg.sizer.crsrs) == 0
+// the sizer forgets the previous node's sink symbol and member sizes as well
+//@   ensures @sizes pg.sizer != nil ==> pg.sizer.sink == "" && pg.sizer.totalMemberSize == 0 && pg.sizer.memberSizes != nil
+//@     && fresh(pg.sizer.memberSizes) && all[string](k, !in(k, pg.sizer.memberSizes))
 
 // the notice shown in front of the next page (invalid input, failed load)
 //@ func (*Page).WithError
